@@ -170,7 +170,13 @@ pub fn run(cfg: &RunCfg) -> Report {
             let body = m.lines().filter(|l| !l.starts_with("Rec-Mod DEFINITIONS") && *l != "END").collect::<Vec<_>>().join("\n");
             judge_recursion(&[("replay".to_string(), body)], &mut rep);
         } else {
-            judge("c02", &[case_from_replay(r).expect("bad replay")], &mut rep, &describe);
+            let setting = r.get("case").unwrap_or(r).get("setting").and_then(|x| x.as_str()).unwrap_or("").to_string();
+            let c = case_from_replay(r).expect("bad replay");
+            if setting == CLASS_FIELD_SETTING || setting == CLASS_FIELD_SETTING_LAST {
+                judge_class_field_at("c02", &[c], &mut rep, &describe, setting == CLASS_FIELD_SETTING_LAST);
+            } else {
+                judge("c02", &[c], &mut rep, &describe);
+            }
         }
         return rep;
     }
@@ -179,6 +185,10 @@ pub fn run(cfg: &RunCfg) -> Report {
     cases.extend(random_cases(cfg, 0xC02, cfg.budget(1200, 30000), || GenCfg { max_depth: 4, max_comps: 12, tags: true, groups: true, defaults: true }));
     rep.exhaustive = true;
     judge("c02", &cases, &mut rep, &describe);
+    // ... and when a component (the first / the last plain INTEGER one, nested ones included) is written as a reference to a
+    // fixed-type field of an information object class: the linker rebuilds such definitions member by member
+    let sample: Vec<Case> = cases.iter().step_by(if cfg.thorough { 2 } else { 4 }).cloned().collect();
+    judge_class_field("c02", &sample, &mut rep, &describe);
     judge_recursion(&recursion_modules(cfg), &mut rep);
     judge_marking(&recursion_graphs(cfg), &mut rep);
     default_functions(&mut rep, None);
